@@ -103,6 +103,10 @@ enum Call {
     STransferFrom(usize, usize, usize, i128, Au),
     SApprove(usize, usize, i128, u32, Au),
     Advance(u32),
+    /// share / asset token transfer whose destination is given in MUXED form (account address + id); for the model
+    /// (and the property) it is the plain transfer to that account
+    STransferMux(usize, usize, u64, i128, Au),
+    ATransferMux(usize, usize, u64, i128, Au),
     Query(Q),
     /// library Vault::set_asset(addr) run inside the vault (index 255 = the asset token itself)
     SetAsset(usize),
@@ -123,10 +127,10 @@ impl Call {
             Call::MintS(a, r, f, o, au) => format!("MintS {} {} {} {} {}", z(*a), nn(*r), nn(*f), nn(*o), au_coq(au)),
             Call::Withdraw(a, r, f, o, au) => format!("Withdraw {} {} {} {} {}", z(*a), nn(*r), nn(*f), nn(*o), au_coq(au)),
             Call::Redeem(a, r, f, o, au) => format!("Redeem {} {} {} {} {}", z(*a), nn(*r), nn(*f), nn(*o), au_coq(au)),
-            Call::ATransfer(f, t, a, au) => format!("ATransfer {} {} {} {}", nn(*f), nn(*t), z(*a), au_coq(au)),
+            Call::ATransfer(f, t, a, au) | Call::ATransferMux(f, t, _, a, au) => format!("ATransfer {} {} {} {}", nn(*f), nn(*t), z(*a), au_coq(au)),
             Call::AMint(t, a) => format!("AMint {} {}", nn(*t), z(*a)),
             Call::AApprove(o, s, a, l, au) => format!("AApprove {} {} {} {} {}", nn(*o), nn(*s), z(*a), l, au_coq(au)),
-            Call::STransfer(f, t, a, au) => format!("STransfer {} {} {} {}", nn(*f), nn(*t), z(*a), au_coq(au)),
+            Call::STransfer(f, t, a, au) | Call::STransferMux(f, t, _, a, au) => format!("STransfer {} {} {} {}", nn(*f), nn(*t), z(*a), au_coq(au)),
             Call::STransferFrom(s, f, t, a, au) => format!("STransferFrom {} {} {} {} {}", nn(*s), nn(*f), nn(*t), z(*a), au_coq(au)),
             Call::SApprove(o, s, a, l, au) => format!("SApprove {} {} {} {} {}", nn(*o), nn(*s), z(*a), l, au_coq(au)),
             Call::Advance(k) => format!("Advance {}", k),
@@ -151,6 +155,7 @@ impl Call {
             Call::Deposit(..) => "deposit", Call::MintS(..) => "mint", Call::Withdraw(..) => "withdraw", Call::Redeem(..) => "redeem",
             Call::ATransfer(_, t, _, _) => if *t == 0 { "donate" } else { "asset_transfer" },
             Call::AMint(t, _) => if *t == 0 { "yield" } else { "fund" },
+            Call::STransferMux(..) => "share_transfer_muxed", Call::ATransferMux(..) => "asset_transfer_muxed",
             Call::AApprove(..) => "asset_approve", Call::STransfer(..) => "share_transfer", Call::STransferFrom(..) => "share_transfer_from",
             Call::SApprove(..) => "share_approve", Call::Advance(..) => "advance",
             Call::SetAsset(..) => "set_asset", Call::SetOffset(..) => "set_decimals_offset",
@@ -181,6 +186,7 @@ struct World {
     now: u32, now0: u32, off: u32, adec: u32, max_ttl: u32, obs: Obs, obs0: Obs, dec: u32, lib: bool,
 }
 
+fn unrz(s: &str) -> Option<i128> { let t = s.strip_prefix("(Ok ")?.strip_suffix(')')?; t.trim_matches(|ch| ch == '(' || ch == ')').parse().ok() }
 fn rz(o: Option<i128>) -> String { match o { Some(v) => format!("(Ok {})", z(v)), None => "Fail".into() } }
 
 /// host configuration of the next World: min_temp_entry_ttl (1 as C07 prescribes, or 16 = the network default)
@@ -214,8 +220,15 @@ impl World {
         QUIET.store(false, std::sync::atomic::Ordering::SeqCst);
         let empty = Obs { ab: vec![0; nuni], sb: vec![0; nuni], sup: 0, ta: 0, aal: vec![0; nuni * nuni], sal: vec![0; nuni * nuni], dec: 0, asset: 1, now: now0 as i128 };
         let vault = match reg { Ok(v) => v, Err(_) => return Err(header_coq(off, adec, max_ttl, nuni, now0, None, &empty)) };
+        // universes of 7 addresses (directed scenario S8): index 5 = the ASSET TOKEN CONTRACT's own address, index 6 = an
+        // ACCOUNT address (the only kind that can be a destination in muxed form).  Like the vault (index 0) neither
+        // of them ever signs: mock_auths on a registered contract would replace it, and cannot sign for an account.
         let mut a = vec![vault.clone()];
-        for _ in 1..nuni { a.push(Address::generate(&e)); }
+        for i in 1..nuni {
+            a.push(if nuni >= 7 && i == 5 { asset.clone() }
+                   else if nuni >= 7 && i == 6 { use soroban_sdk::testutils::MuxedAddress as _; soroban_sdk::MuxedAddress::generate(&e).address() }
+                   else { Address::generate(&e) });
+        }
         let sc = a.iter().map(|x| xdr::ScAddress::from(x)).collect();
         let mut w = World { e, vault, asset, a, sc, n: nuni, now: now0, now0, off, adec, max_ttl, obs: empty.clone(), obs0: empty, dec: 0, lib: lib_kind };
         w.dec = w.get::<u32>(&w.vault, "decimals", SVec::new(&w.e)).unwrap_or(u32::MAX);
@@ -339,6 +352,17 @@ impl World {
                 let (out, ok) = unit_out(self.invoke(&tok, "transfer", args.clone(), &ents));
                 (none, out, ok, None)
             }
+            Call::ATransferMux(f, t, id, x, au) | Call::STransferMux(f, t, id, x, au) => {
+                use soroban_sdk::testutils::MuxedAddress as _;
+                let tok = if matches!(c, Call::ATransferMux(..)) { at.clone() } else { v.clone() };
+                let m = soroban_sdk::MuxedAddress::new(self.a[*t].clone(), *id);
+                let args = soroban_sdk::vec![&e, self.av(*f), m.to_val(), self.iv(*x)];
+                let root = || Inv { contract: tok.clone(), f: "transfer", args: args.clone(), subs: vec![] };
+                let wrong = || Inv { contract: tok.clone(), f: "transfer", args: soroban_sdk::vec![&e, self.av(*f), m.to_val(), self.iv(x.wrapping_add(1))], subs: vec![] };
+                let ents = self.entries(au, &root, None, &wrong);
+                let (out, ok) = unit_out(self.invoke(&tok, "transfer", args.clone(), &ents));
+                (none, out, ok, None)
+            }
             Call::STransferFrom(s, f, t, x, au) => {
                 let args = soroban_sdk::vec![&e, self.av(*s), self.av(*f), self.av(*t), self.iv(*x)];
                 let root = || Inv { contract: v.clone(), f: "transfer_from", args: args.clone(), subs: vec![] };
@@ -444,6 +468,13 @@ impl<'a> Run<'a> {
                 if ok && r != f { self.out.label("deposit-like/ok-receiver-differs"); }
                 if !ok && !au.iter().any(|(i, k)| i == o && *k == K::Full) { self.out.label("deposit-like/fail-auth"); }
                 if !ok && pre.0 == "Fail" { self.out.label("deposit-like/fail-preview"); }
+                // the collaborator (asset token) refuses the pull although the vault call itself is authorised (K4: it traps)
+                if !ok && pre.0 != "Fail" && au.iter().any(|(i, k)| i == o && *k == K::Full) {
+                    let assets = if matches!(&c, Call::Deposit(..)) { match &c { Call::Deposit(x, ..) => *x, _ => 0 } } else { unrz(&pre.0).unwrap_or(0) };
+                    let nu = self.w.n;
+                    if assets > prev.ab[*f] { self.out.label("deposit-like/fail-asset-balance"); }
+                    else if o != f && assets > prev.aal[*f * nu + *o] { self.out.label("deposit-like/fail-asset-allowance"); }
+                }
                 if ok && ret == Some(0) { self.out.label("deposit-like/ok-zero-result"); }
             }
             Call::Withdraw(_, r, ow, o, au) | Call::Redeem(_, r, ow, o, au) => {
@@ -455,6 +486,11 @@ impl<'a> Run<'a> {
                 if !ok && !au.iter().any(|(i, k)| i == o && *k != K::Sub) { self.out.label("withdraw-like/fail-auth"); }
                 if !ok && pre.0 != "Fail" && au.iter().any(|(i, k)| i == o && *k != K::Sub) { self.out.label("withdraw-like/fail-limit"); }
                 if ok && ob.sup == 0 { self.out.label("withdraw-like/ok-emptied"); }
+                if !ok && pre.0 != "Fail" && o != ow && au.iter().any(|(i, k)| i == o && *k != K::Sub) {
+                    let shares = if matches!(&c, Call::Redeem(..)) { match &c { Call::Redeem(x, ..) => *x, _ => 0 } } else { unrz(&pre.0).unwrap_or(0) };
+                    let nu = self.w.n;
+                    if shares >= 0 && shares <= prev.sb[*ow] && shares > prev.sal[*ow * nu + *o] { self.out.label("withdraw-like/fail-share-allowance"); }
+                }
             }
             _ => {}
         }
@@ -463,6 +499,12 @@ impl<'a> Run<'a> {
         self.items.push(format!("({}, ({}, {}), {}, {})", text, pre.0, pre.1, outc, ob.coq()));
         self.w.obs = ob;
         (ok, ret)
+    }
+    /// run one call of a directed situation and record it under its own label `tag/ok` or `tag/fail`
+    fn gl(&mut self, c: Call, tag: &str) -> (bool, Option<i128>) {
+        let r = self.go(c);
+        self.out.label(&format!("{}/{}", tag, if r.0 { "ok" } else { "fail" }));
+        r
     }
     fn finish(self, desc: &str) {
         let desc = &format!("{}{}", if self.w.lib { "lib:" } else { "" }, desc);
@@ -730,6 +772,259 @@ fn s7(out: &mut Out) {
     }
 }
 
+/// S8 (K1 special addresses, K3 muxed destinations): universe of 7 = vault, users 1-3, donor 4, 5 = the ASSET TOKEN CONTRACT's
+/// address, 6 = an ACCOUNT address.  The vault, the asset contract and the account never sign: every call that needs
+/// their authorisation must be refused; as receivers / spenders / queried accounts they are ordinary addresses.
+fn s8_special(out: &mut Out) {
+    for off in [0u32, 3] {
+        let w = match World::new(off, 7, 6_312_000, 100, 7) { Ok(w) => w, Err(h) => { out.case("ctor/fail-unexpected", &format!("{} 7", off)); out.trace("ctor-unexpected", format!("(({}, []) : trace)", h), 1); continue } };
+        let mut r = Run { w, items: vec![], out };
+        let p = pow10(off);
+        let live = 5_000u32;
+        r.go(Call::AMint(1, 10_000)); r.go(Call::AMint(2, 5_000)); r.go(Call::AMint(4, 1_000));
+        r.go(Call::Deposit(1_000, 1, 1, 1, full(1)));
+        // ---- the vault's own address ----
+        r.gl(Call::Deposit(50, 0, 1, 1, full(1)), "k1/deposit-receiver-is-vault");              // the vault now holds shares of itself
+        r.gl(Call::STransfer(1, 0, 7 * p, full(1)), "k1/share-transfer-to-vault");
+        r.gl(Call::Deposit(10, 2, 0, 0, vec![]), "k1/deposit-operator-is-vault");                // the vault holds assets, but cannot sign
+        r.gl(Call::MintS(10 * p, 2, 0, 0, vec![]), "k1/mint-operator-is-vault");
+        r.gl(Call::Redeem(5 * p, 2, 0, 0, vec![]), "k1/redeem-operator-is-vault");               // ... and shares
+        r.gl(Call::Withdraw(1, 2, 0, 0, vec![]), "k1/withdraw-operator-is-vault");
+        r.gl(Call::Deposit(10, 2, 0, 0, full(2)), "k1/deposit-operator-is-vault-other-signs");
+        r.gl(Call::Deposit(10, 2, 0, 2, full(2)), "k1/deposit-from-is-vault");                   // the vault never granted an allowance
+        r.gl(Call::MintS(10 * p, 2, 0, 2, full(2)), "k1/mint-from-is-vault");
+        r.gl(Call::Redeem(5 * p, 2, 0, 2, full(2)), "k1/redeem-owner-is-vault");
+        r.gl(Call::Withdraw(1, 2, 0, 2, full(2)), "k1/withdraw-owner-is-vault");
+        r.gl(Call::Deposit(0, 2, 0, 2, full(2)), "k1/deposit-zero-from-vault");                  // zero moves nothing and needs no allowance
+        r.gl(Call::Redeem(0, 2, 0, 2, full(2)), "k1/redeem-zero-owner-vault");
+        r.gl(Call::AApprove(1, 0, 100, live, full(1)), "k1/asset-approve-spender-is-vault");     // an allowance TO the vault does not let it act
+        r.gl(Call::Deposit(10, 1, 1, 0, vec![]), "k1/deposit-operator-vault-has-allowance");
+        r.gl(Call::Deposit(10, 1, 1, 0, full(1)), "k1/deposit-operator-vault-from-signs");
+        r.gl(Call::SApprove(1, 0, 100 * p, live, full(1)), "k1/share-approve-spender-is-vault");
+        r.gl(Call::Redeem(5 * p, 1, 1, 0, vec![]), "k1/redeem-operator-vault-has-allowance");
+        r.gl(Call::Withdraw(3, 1, 1, 0, full(1)), "k1/withdraw-operator-vault-owner-signs");
+        r.gl(Call::STransferFrom(0, 1, 2, p, vec![]), "k1/share-transfer-from-spender-is-vault");
+        r.gl(Call::ATransfer(0, 2, 5, vec![]), "k1/asset-transfer-from-vault");
+        r.gl(Call::ATransfer(0, 2, 5, full(2)), "k1/asset-transfer-from-vault-receiver-signs");
+        r.gl(Call::STransfer(0, 2, p, vec![]), "k1/share-transfer-from-vault");
+        r.gl(Call::STransferFrom(2, 0, 2, p, full(2)), "k1/share-transfer-from-vault-by-spender");
+        r.gl(Call::SApprove(0, 2, 5, live, vec![]), "k1/share-approve-owner-is-vault");
+        r.gl(Call::AApprove(0, 2, 5, live, vec![]), "k1/asset-approve-owner-is-vault");
+        r.gl(Call::Withdraw(5, 0, 1, 1, full(1)), "k1/withdraw-receiver-is-vault");              // the assets stay, the shares are burned
+        r.gl(Call::Redeem(5 * p + 1, 0, 1, 1, full(1)), "k1/redeem-receiver-is-vault");
+        r.gl(Call::Query(Q::MaxWithdraw(0)), "k1/max-withdraw-of-vault"); r.gl(Call::Query(Q::MaxRedeem(0)), "k1/max-redeem-of-vault");
+        r.gl(Call::Query(Q::MaxDeposit(0)), "k1/max-deposit-of-vault"); r.gl(Call::Query(Q::MaxMint(0)), "k1/max-mint-of-vault");
+        // ---- the asset token contract's address as an account ----
+        r.gl(Call::Deposit(20, 5, 1, 1, full(1)), "k1/deposit-receiver-is-asset-contract");
+        r.gl(Call::MintS(7 * p + 1, 5, 1, 1, full(1)), "k1/mint-receiver-is-asset-contract");
+        r.gl(Call::Withdraw(3, 5, 1, 1, full(1)), "k1/withdraw-receiver-is-asset-contract");
+        r.gl(Call::Redeem(2 * p + 1, 5, 1, 1, full(1)), "k1/redeem-receiver-is-asset-contract");
+        r.gl(Call::ATransfer(4, 5, 9, full(4)), "k1/asset-transfer-to-asset-contract");          // not a donation: total assets unchanged
+        r.go(Call::AMint(5, 11));
+        r.gl(Call::STransfer(1, 5, 3 * p, full(1)), "k1/share-transfer-to-asset-contract");
+        r.gl(Call::Deposit(1, 1, 5, 5, vec![]), "k1/deposit-operator-is-asset-contract");        // it holds assets and shares, but cannot sign
+        r.gl(Call::Redeem(1, 1, 5, 5, vec![]), "k1/redeem-operator-is-asset-contract");
+        r.gl(Call::Withdraw(1, 1, 5, 5, vec![]), "k1/withdraw-operator-is-asset-contract");
+        r.gl(Call::Deposit(1, 1, 5, 1, full(1)), "k1/deposit-from-is-asset-contract");
+        r.gl(Call::Redeem(1, 1, 5, 1, full(1)), "k1/redeem-owner-is-asset-contract");
+        r.gl(Call::ATransfer(5, 1, 1, vec![]), "k1/asset-transfer-from-asset-contract");
+        r.gl(Call::Query(Q::MaxWithdraw(5)), "k1/max-withdraw-of-asset-contract"); r.gl(Call::Query(Q::MaxRedeem(5)), "k1/max-redeem-of-asset-contract");
+        // ---- an account address, plain and in muxed form ----
+        r.gl(Call::Deposit(30, 6, 1, 1, full(1)), "k3/deposit-receiver-is-account");
+        r.gl(Call::Withdraw(4, 6, 1, 1, full(1)), "k3/withdraw-receiver-is-account");
+        r.gl(Call::STransfer(1, 6, 3 * p, full(1)), "k3/share-transfer-to-account");
+        r.gl(Call::STransferMux(1, 6, 77, 3 * p + 1, full(1)), "k3/share-transfer-to-muxed");
+        r.gl(Call::STransferMux(1, 6, 0, 1, full(1)), "k3/share-transfer-to-muxed-id0");
+        r.gl(Call::STransferMux(1, 6, u64::MAX, 2, full(1)), "k3/share-transfer-to-muxed-idmax");
+        r.gl(Call::STransferMux(1, 6, 5, 2, vec![]), "k3/share-transfer-to-muxed-unsigned");
+        r.gl(Call::ATransferMux(4, 6, 12_345, 2, full(4)), "k3/asset-transfer-to-muxed");
+        r.gl(Call::STransferFrom(0, 1, 6, 1, vec![]), "k3/share-transfer-from-to-account-unsigned");
+        r.gl(Call::Redeem(1, 1, 6, 6, vec![]), "k1/redeem-operator-is-account-unsigned");
+        r.gl(Call::Query(Q::MaxWithdraw(6)), "k3/max-withdraw-of-account"); r.gl(Call::Query(Q::MaxRedeem(6)), "k3/max-redeem-of-account");
+        // everybody who can leaves: the vault's, the asset contract's and the account's shares stay behind
+        let s1 = r.w.obs.sb[1];
+        r.gl(Call::Redeem(s1, 1, 1, 1, full(1)), "k1/last-signer-leaves-locked-shares-remain");
+        r.go(Call::Query(Q::PrevDeposit(1_000))); r.go(Call::Query(Q::PrevRedeem(p + 1)));
+        r.finish(&format!("S8-special-addresses-off{}", off));
+    }
+}
+
+/// S9 (K5 aliasing, K2 unusual but legal values, K4 the asset token refusing the pull): one label per situation
+fn s9_alias_values(out: &mut Out) {
+    for off in [0u32, 4] {
+        let Some(w) = mk(out, off, 7, 6_312_000, 100) else { continue };
+        let mut r = Run { w, items: vec![], out };
+        let p = pow10(off);
+        let live = 9_000u32;
+        r.go(Call::AMint(1, 20_000)); r.go(Call::AMint(2, 500)); r.go(Call::AMint(3, 9_000)); r.go(Call::AMint(4, 700));
+        r.go(Call::Deposit(5_000, 1, 1, 1, full(1))); r.go(Call::Deposit(3_000, 3, 3, 3, full(3)));
+        r.go(Call::ATransfer(4, 0, 333, full(4)));                                                    // skew the rate
+        // ---- K5: aliasing between receiver / from / owner / operator / spender ----
+        r.gl(Call::Redeem(10 * p, 2, 3, 2, full(2)), "k5/redeem-receiver-is-operator-no-allowance");
+        r.gl(Call::Withdraw(5, 2, 3, 2, full(2)), "k5/withdraw-receiver-is-operator-no-allowance");
+        r.go(Call::SApprove(3, 2, 100 * p, live, full(3)));
+        r.gl(Call::Redeem(10 * p + 1, 2, 3, 2, full(2)), "k5/redeem-receiver-is-operator");
+        r.gl(Call::Withdraw(5, 2, 3, 2, full(2)), "k5/withdraw-receiver-is-operator");
+        r.gl(Call::Withdraw(5, 3, 3, 2, full(2)), "k5/withdraw-receiver-is-owner-by-operator");
+        r.gl(Call::Redeem(p + 1, 3, 3, 2, full(3)), "k5/redeem-by-operator-owner-signs");               // the owner's signature is not the operator's
+        r.gl(Call::Deposit(10, 2, 1, 2, full(2)), "k5/deposit-receiver-is-operator-no-allowance");
+        r.go(Call::AApprove(1, 2, 100, live, full(1)));
+        r.gl(Call::Deposit(10, 2, 1, 2, full(2)), "k5/deposit-receiver-is-operator");
+        r.gl(Call::Deposit(10, 1, 1, 2, full(2)), "k5/deposit-receiver-is-from-by-operator");
+        r.gl(Call::MintS(p + 1, 2, 1, 2, full(2)), "k5/mint-receiver-is-operator");
+        r.gl(Call::Deposit(10, 1, 1, 2, full(1)), "k5/deposit-by-operator-from-signs");
+        r.gl(Call::STransferFrom(3, 3, 2, 5, full(3)), "k5/share-transfer-from-self-no-allowance");     // spending one's own shares through transfer_from needs an allowance to oneself
+        r.gl(Call::SApprove(3, 3, 50, live, full(3)), "k5/share-approve-self");
+        r.gl(Call::STransferFrom(3, 3, 2, 5, full(3)), "k5/share-transfer-from-spender-is-owner");
+        r.gl(Call::STransferFrom(2, 3, 2, 5, full(2)), "k5/share-transfer-from-to-is-spender");
+        r.gl(Call::STransferFrom(2, 3, 3, 5, full(2)), "k5/share-transfer-from-to-is-from");           // only the allowance shrinks
+        r.gl(Call::STransfer(3, 3, 5, full(3)), "k5/share-transfer-to-self");
+        r.gl(Call::ATransfer(1, 1, 5, full(1)), "k5/asset-transfer-to-self");
+        r.gl(Call::AApprove(1, 1, 50, live, full(1)), "k5/asset-approve-self");
+        r.gl(Call::Deposit(7, 1, 1, 1, full(1)), "k5/deposit-self-with-self-allowance");                // operator == from: plain transfer, the self-allowance is untouched
+        // ---- K2: unusual but legal argument values ----
+        r.gl(Call::SApprove(1, 4, 0, 0, full(1)), "k2/share-approve-zero-live-zero");
+        r.gl(Call::SApprove(1, 4, 5, 0, full(1)), "k2/share-approve-live-zero");
+        r.gl(Call::SApprove(1, 4, 5, 99, full(1)), "k2/share-approve-live-past");
+        r.gl(Call::SApprove(1, 4, 5, 100, full(1)), "k2/share-approve-live-now");
+        r.gl(Call::Redeem(5, 4, 1, 4, full(4)), "k2/redeem-allowance-live-until-now");
+        r.gl(Call::SApprove(1, 4, 5, u32::MAX, full(1)), "k2/share-approve-live-u32max");
+        r.gl(Call::SApprove(1, 4, 5, 100 + 6_312_000 - 1, full(1)), "k2/share-approve-live-at-max-ttl");
+        r.gl(Call::SApprove(1, 4, 5, 100 + 6_312_000, full(1)), "k2/share-approve-live-beyond-max-ttl");
+        r.gl(Call::SApprove(1, 4, 0, 0, full(1)), "k2/share-approve-revoke");
+        r.gl(Call::AApprove(1, 4, 0, 0, full(1)), "k2/asset-approve-zero-live-zero");
+        r.gl(Call::AApprove(1, 4, 5, 0, full(1)), "k2/asset-approve-live-zero");
+        r.gl(Call::AApprove(1, 4, i128::MAX, 100, full(1)), "k2/asset-approve-max-amount");
+        r.gl(Call::Deposit(6, 4, 1, 4, full(4)), "k2/deposit-under-max-allowance");
+        r.gl(Call::AApprove(1, 4, 0, 100, full(1)), "k2/asset-approve-revoke");
+        r.gl(Call::Advance(0), "k2/advance-zero");
+        r.gl(Call::Deposit(0, 4, 1, 4, full(4)), "k2/deposit-zero-by-stranger");                         // zero amounts need neither allowance nor balance
+        r.gl(Call::MintS(0, 4, 1, 4, full(4)), "k2/mint-zero-by-stranger");
+        r.gl(Call::Withdraw(0, 4, 1, 4, full(4)), "k2/withdraw-zero-by-stranger");
+        r.gl(Call::Redeem(0, 4, 1, 4, full(4)), "k2/redeem-zero-by-stranger");
+        r.gl(Call::Redeem(0, 4, 1, 4, vec![]), "k2/redeem-zero-unsigned");
+        r.gl(Call::Redeem(1, 4, 1, 4, full(4)), "k2/redeem-one-by-stranger");
+        r.gl(Call::Withdraw(1, 4, 1, 4, full(4)), "k2/withdraw-one-by-stranger");
+        for (nm, x) in [("max", i128::MAX), ("min", i128::MIN), ("minus-one", -1i128)] {
+            r.gl(Call::Deposit(x, 1, 1, 1, full(1)), &format!("k2/deposit-{}", nm));
+            r.gl(Call::MintS(x, 1, 1, 1, full(1)), &format!("k2/mint-{}", nm));
+            r.gl(Call::Withdraw(x, 1, 1, 1, full(1)), &format!("k2/withdraw-{}", nm));
+            r.gl(Call::Redeem(x, 1, 1, 1, full(1)), &format!("k2/redeem-{}", nm));
+        }
+        // amounts exactly at, and one beyond, each state-relative threshold (K4: beyond = the asset token refuses the pull)
+        let b2 = r.w.obs.ab[2];
+        r.gl(Call::Deposit(b2 + 1, 2, 2, 2, full(2)), "k2/deposit-balance-plus-one");
+        r.gl(Call::Deposit(b2, 2, 2, 2, full(2)), "k2/deposit-entire-balance");
+        let x = 13 * p + 7;
+        let cost = r.w.geti(&r.w.vault.clone(), "preview_mint", soroban_sdk::vec![&r.w.e, r.w.iv(x)]).unwrap_or(0);
+        let b4 = r.w.obs.ab[4];
+        if b4 > cost - 1 { r.go(Call::ATransfer(4, 1, b4 - (cost - 1), full(4))); } else { r.go(Call::AMint(4, cost - 1 - b4)); }
+        r.gl(Call::MintS(x, 4, 4, 4, full(4)), "k2/mint-cost-balance-plus-one");
+        r.go(Call::AMint(4, 1));
+        r.gl(Call::MintS(x, 4, 4, 4, full(4)), "k2/mint-cost-entire-balance");
+        let s4 = r.w.obs.sb[4];
+        r.gl(Call::Redeem(s4 + 1, 4, 4, 4, full(4)), "k2/redeem-balance-plus-one");
+        let mw = r.w.geti(&r.w.vault.clone(), "max_withdraw", soroban_sdk::vec![&r.w.e, r.w.av(3)]).unwrap_or(0);
+        r.gl(Call::Withdraw(mw + 1, 3, 3, 3, full(3)), "k2/withdraw-max-plus-one");
+        r.gl(Call::Withdraw(mw, 3, 3, 3, full(3)), "k2/withdraw-exactly-max");
+        r.gl(Call::Redeem(s4, 4, 4, 4, full(4)), "k2/redeem-entire-balance");
+        r.finish(&format!("S9-aliasing-values-off{}", off));
+    }
+}
+
+/// S10 (K6 multi-step histories): allowances that expire and are re-created, are spent to zero and re-approved, are
+/// overwritten and revoked (asset side through deposit/mint, share side through redeem/withdraw); a vault that is
+/// emptied and entered again (twice), shares that change hands before they are redeemed
+fn s10_histories(out: &mut Out) {
+    for (off, min_temp, lib) in [(2u32, 1u32, false), (0, 16, true)] {
+        MIN_TEMP.store(min_temp, std::sync::atomic::Ordering::SeqCst);
+        LIB_KIND.store(lib, std::sync::atomic::Ordering::SeqCst);
+        let w = mk(out, off, 7, 6_312_000, 100);
+        LIB_KIND.store(false, std::sync::atomic::Ordering::SeqCst);
+        MIN_TEMP.store(1, std::sync::atomic::Ordering::SeqCst);
+        let Some(w) = w else { continue };
+        let mut r = Run { w, items: vec![], out };
+        let p = pow10(off);
+        r.go(Call::AMint(1, 100_000)); r.go(Call::AMint(2, 100)); r.go(Call::AMint(4, 5_000));
+        r.go(Call::Deposit(1_003, 1, 1, 1, full(1)));
+        r.go(Call::ATransfer(4, 0, 111, full(4)));
+        // asset allowance 1 -> 2, used by deposit and by its sibling mint
+        r.go(Call::AApprove(1, 2, 500, 105, full(1)));
+        r.gl(Call::Deposit(100, 3, 1, 2, full(2)), "k6/asset-allowance-first-use");
+        r.go(Call::Advance(6));
+        r.gl(Call::Deposit(100, 3, 1, 2, full(2)), "k6/asset-allowance-expired");
+        r.gl(Call::MintS(p, 3, 1, 2, full(2)), "k6/asset-allowance-expired-mint");
+        r.go(Call::AApprove(1, 2, 300, 150, full(1)));                                                 // re-created: 300, not 300 + the 400 that expired
+        r.gl(Call::Deposit(100, 3, 1, 2, full(2)), "k6/asset-allowance-recreated-after-expiry");
+        r.gl(Call::Deposit(201, 3, 1, 2, full(2)), "k6/asset-allowance-recreated-one-short");
+        r.gl(Call::Deposit(200, 3, 1, 2, full(2)), "k6/asset-allowance-spent-to-zero");
+        r.gl(Call::Deposit(1, 3, 1, 2, full(2)), "k6/asset-allowance-exhausted");
+        r.go(Call::AApprove(1, 2, 50, 150, full(1)));
+        r.gl(Call::MintS(3 * p + 1, 3, 1, 2, full(2)), "k6/asset-allowance-reapproved-used-by-mint");
+        r.go(Call::AApprove(1, 2, 1_000, 150, full(1))); r.go(Call::AApprove(1, 2, 10, 150, full(1)));   // overwritten downwards
+        r.gl(Call::Deposit(11, 3, 1, 2, full(2)), "k6/asset-allowance-overwritten-lower");
+        r.gl(Call::Deposit(10, 3, 1, 2, full(2)), "k6/asset-allowance-overwritten-exact");
+        r.go(Call::AApprove(1, 2, 10, 150, full(1))); r.go(Call::AApprove(1, 2, 0, 0, full(1)));         // revoked
+        r.gl(Call::Deposit(1, 3, 1, 2, full(2)), "k6/asset-allowance-revoked");
+        // share allowance 3 -> 2, used by redeem and by its sibling withdraw
+        r.go(Call::SApprove(3, 2, 50 * p, 110, full(3)));
+        r.gl(Call::Redeem(10 * p, 4, 3, 2, full(2)), "k6/share-allowance-first-use");
+        r.go(Call::Advance(5));
+        r.gl(Call::Redeem(p, 4, 3, 2, full(2)), "k6/share-allowance-expired");
+        r.gl(Call::Withdraw(1, 4, 3, 2, full(2)), "k6/share-allowance-expired-withdraw");
+        r.go(Call::SApprove(3, 2, 30 * p, 150, full(3)));
+        r.gl(Call::Redeem(30 * p + 1, 4, 3, 2, full(2)), "k6/share-allowance-recreated-one-short");
+        r.gl(Call::Redeem(30 * p, 4, 3, 2, full(2)), "k6/share-allowance-recreated-spent-to-zero");
+        r.gl(Call::Redeem(1, 4, 3, 2, full(2)), "k6/share-allowance-exhausted");
+        r.go(Call::SApprove(3, 2, 20 * p, 150, full(3)));
+        r.gl(Call::Withdraw(3, 4, 3, 2, full(2)), "k6/share-allowance-reapproved-used-by-withdraw");
+        r.go(Call::SApprove(3, 2, 0, 0, full(3)));
+        r.gl(Call::Redeem(1, 4, 3, 2, full(2)), "k6/share-allowance-revoked");
+        // the vault is emptied and entered again, twice; shares change hands before they are redeemed
+        let s1 = r.w.obs.sb[1]; r.go(Call::Redeem(s1, 1, 1, 1, full(1)));
+        let s3 = r.w.obs.sb[3]; r.gl(Call::Redeem(s3, 3, 3, 3, full(3)), "k6/vault-emptied");
+        r.gl(Call::Deposit(1_000, 1, 1, 1, full(1)), "k6/deposit-after-emptied");                       // the dust left behind prices this deposit
+        let s1 = r.w.obs.sb[1]; r.gl(Call::Redeem(s1, 1, 1, 1, full(1)), "k6/vault-emptied-again");
+        r.gl(Call::MintS(5 * p + 3, 2, 2, 2, full(2)), "k6/mint-after-emptied-twice");
+        let s2 = r.w.obs.sb[2]; r.go(Call::STransfer(2, 3, s2, full(2)));
+        r.gl(Call::Redeem(1, 2, 2, 2, full(2)), "k6/redeem-after-transferring-shares-away");
+        r.gl(Call::Redeem(s2, 3, 3, 3, full(3)), "k6/redeem-received-shares");
+        r.finish(&format!("S10-histories-off{}-mintemp{}", off, min_temp));
+    }
+}
+
+/// S11 (K2 interior "magic numbers"): 10^k - 1, 10^k, 10^k + 1 for every k, 2^k - 1, 2^k, 2^k + 1 at the word sizes, the
+/// state-relative values and the square root of the virtual share scale, through both conversions in both rounding
+/// directions, on skewed vaults (supply not a multiple of 10^offset).  Universe of 2 (vault + one user).
+fn s11_magic(out: &mut Out, thorough: bool) {
+    let mut cfgs: Vec<(u32, bool)> = vec![(0, false), (6, true)];
+    if thorough { cfgs.extend_from_slice(&[(0, true), (6, false), (3, false), (10, true), (1, false)]); }
+    for (off, lib) in cfgs {
+        LIB_KIND.store(lib, std::sync::atomic::Ordering::SeqCst);
+        let w = World::new(off, 7, 6_312_000, 100, 2);
+        LIB_KIND.store(false, std::sync::atomic::Ordering::SeqCst);
+        let Ok(w) = w else { continue };
+        let mut r = Run { w, items: vec![], out };
+        let p = pow10(off);
+        r.go(Call::AMint(1, 1_000_000_007)); r.go(Call::Deposit(1_000_003, 1, 1, 1, full(1)));
+        r.go(Call::AMint(0, 271_828)); r.go(Call::MintS(7 * p + 13, 1, 1, 1, full(1)));
+        let (ta, sup) = (r.w.obs.ta, r.w.obs.sup);
+        let mut vals: Vec<i128> = vec![];
+        for k in 0..=38u32 { let t = 10i128.pow(k); vals.extend_from_slice(&[t - 1, t, t + 1]); }
+        for k in [7u32, 8, 15, 16, 31, 32, 53, 63, 64, 96, 126] { let t = 1i128 << k; vals.extend_from_slice(&[t - 1, t, t + 1]); }
+        vals.extend_from_slice(&[i128::MAX, i128::MAX - 1, ta - 1, ta, ta + 1, ta + 2, sup - 1, sup, sup + 1, sup + p - 1, sup + p, sup + p + 1,
+                                 10i128.pow(off / 2), 10i128.pow(off / 2) + 1, 2 * p, 3 * p - 1]);
+        vals.sort(); vals.dedup();
+        for v in vals {
+            if v < 0 { continue }
+            r.go(Call::Query(Q::PrevDeposit(v))); r.go(Call::Query(Q::PrevWithdraw(v)));
+            r.go(Call::Query(Q::PrevRedeem(v))); r.go(Call::Query(Q::PrevMint(v)));
+        }
+        r.out.label("k2/magic-number-catalogue");
+        r.finish(&format!("S11-magic-numbers-off{}", off));
+    }
+}
+
 /// exhaustive small scope: every amount 0..=11 through all six conversions on small skewed vault states
 fn grids(out: &mut Out, rng: &mut Rng, thorough: bool) {
     let dons = [0i128, 1, 2, 3, 7]; let deps = [0i128, 1, 2, 5, 9];
@@ -964,9 +1259,12 @@ fn main() {
         ctor_cases(&mut out, &mut rng);
         grids(&mut out, &mut rng, thorough);
         s7(&mut out);
+        // C05_SKIP_ROUND4=1: without the round-4 scenarios S8-S11 (only used to show which seeded changes NEED them)
+        if std::env::var("C05_SKIP_ROUND4").is_err() { s8_special(&mut out); s9_alias_values(&mut out); }
     }
     set_kind(false);
     long_gaps(&mut out, thorough);
+    if std::env::var("C05_SKIP_ROUND4").is_err() { s10_histories(&mut out); s11_magic(&mut out, thorough); }
     // C05_DIRECTED_ONLY=1: only the directed scenarios (used to verify that every must_cover label is hit without the random stream)
     let ntr = if std::env::var("C05_DIRECTED_ONLY").is_ok() { 0 } else { (if thorough { 1500 } else { 110 }) * out.cfg.scale as usize };
     for i in 0..ntr {
